@@ -552,6 +552,49 @@ def run(ctx):
                                 'observed': got, 'canonical': canonical},
                                group=f'defaulted:{sname}:{fname}')
 
+    # ---- A2b. a digit string given as a NUMBER (BIN2DEC(101)): the whole number
+    # may be an int, a whole float, a numpy scalar, a Number or a float cell ---
+    for fname, ex_ in (('BIN2DEC', (101,)), ('OCT2DEC', (17,)),
+                       ('HEX2DEC', (19,)), ('BIN2HEX', (1100,)),
+                       ('OCT2BIN', (7,)), ('HEX2OCT', (12,))):
+        if fname not in F or not mine():
+            continue
+        v = ex_[0]
+        canonical = monitors.call_outcome(F[fname], v)
+        if canonical[0] != 'value' or canonical[1][0] == 'err':
+            continue
+        for sname, sval in (('float', float(v)),
+                            ('numpy.int64', numpy.int64(v)),
+                            ('numpy.float64', numpy.float64(v)),
+                            ('Number-int', T.Number(v)),
+                            ('Number-float', T.Number(float(v))),
+                            ('text-decimal', str(v)),
+                            ('Text-decimal', T.Text(str(v)))):
+            got = monitors.call_outcome(F[fname], sval)
+            ctx.event('numeric_spelling_cases')
+            ctx.event('numeric_by_meaning_cases')
+            ctx.case((fname, 0, 'digits-as-number', sname))
+            if not same(got, canonical):
+                report(f'{fname}: digit string given as {sname} ({sval!r}) '
+                       f'-> {got}, the int gives {canonical}',
+                       {'function': fname, 'position': 0, 'spelling': sname,
+                        'value': repr(sval), 'observed': got,
+                        'canonical': canonical},
+                       group=f'digits-as-number:{sname}:{got[0]}:{fname}')
+        for sname, text, inputs in (
+                ('cell-float', f'={fname}(A1)', {'A1': float(v)}),
+                ('computed', f'={fname}(A1/2)', {'A1': 2 * v}),
+                ('literal', f'={fname}({v})', {})):
+            got = subject.eval_one(text, inputs)
+            ctx.event('numeric_by_meaning_cases')
+            ctx.case((fname, 0, 'digits-as-number', sname))
+            if not same(got, canonical):
+                report(f'{text} with {inputs} -> {got}, the int argument '
+                       f'gives {canonical}',
+                       {'formula': text, 'inputs': inputs, 'observed': got,
+                        'canonical': canonical},
+                       group=f'digits-as-number:{sname}:{got[0]}:{fname}')
+
     # ---- A3. numbers in scientific notation, as text and as literals: upper- and
     # lower-case exponent, fractions and negatives ---------------------------
     if sh in (2, 3):
